@@ -231,6 +231,16 @@ def all_cases(ctx):
     return cases
 
 
+def rejected_dev(tkey, devs):
+    """Which deviation of the list the API rejects (applied one at a time on a fresh module)."""
+    for d in devs:
+        try:
+            deviate.build(tkey, [d])
+        except Exception:
+            return d["k"] + ":" + str(d.get("n", d.get("p")))
+    return "+".join(d["k"] + ":" + str(d.get("n", d.get("p"))) for d in devs)
+
+
 def _task(t):
     kind = t[0]
     r = C.new_result()
@@ -257,7 +267,7 @@ def _task(t):
                 vs, b = roundtrip(p, case, "module", {"type": tkey})
             except Exception as e:
                 vs, b = [C.viol("deviation-rejected", {"type": tkey, "exc": type(e).__name__,
-                                                       "dev": [d["k"] + ":" + str(d.get("n", d.get("p"))) for d in c]},
+                                                       "rejected": rejected_dev(tkey, c)},
                                 {"error": repr(e)}, case)], b""
             r["evals"] += 1
             r["digests"].add(C.h8(b))
